@@ -6,6 +6,7 @@
 (*   New       createBlockApplier + preConsuming            Serve    one BlocksRange answer on the wire *)
 (*   BatchEnd  processBatch returned                         Post     postConsuming returned             *)
 (*   Restart   the node was restarted                        Tail     normal block application after S    *)
+(*   Wire / Synced  whole-Downloader scenarios: the answers on the wire, the state after SyncBlockchain  *)
 (*   Final     summaries of the arrived node and of a node that applied every block                  *)
 (*                                                                                                  *)
 (* The specification (FastSync.tla) is advanced by the same operators the bounded model uses, fed     *)
@@ -28,8 +29,9 @@ EXTENDS FastSync, Json, IOUtils
 Trace == ndJsonDeserialize(IOEnv.TRACE_FILE)
 ASSUME TLCSet(2, 0) /\ TLCSet(3, <<>>) /\ TLCSet(4, <<>>)
 
-VARIABLES l, refb, prev, bad, drift
-tvars == <<ch, N, st, l, refb, prev, bad, drift>>
+VARIABLES l, refb, prev, bad, drift,
+          lied    \* some alteration was on the wire in this scenario
+tvars == <<ch, N, st, l, refb, prev, bad, drift, lied>>
 
 ToSet(s) == {s[i] : i \in 1..Len(s)}
 NoObs == [none |-> TRUE]
@@ -53,6 +55,8 @@ ArtOk(a) == /\ a.h \in 1..Len(refb)
             /\ (a.certd # "" => a.certd = refb[a.h].certfull)
             /\ (refb[a.h].need => a.certd # "")
 ArtsOk(o) == \A i \in 1..Len(o.arts) : ArtOk(o.arts[i])
+\* non-canonical artifacts: accepted from a lying peer, or (nobody lied) lost / mangled by the node itself
+ArtClause == IF lied THEN "BadPeerRefused" ELSE "ArrivedArtifacts"
 CanonSame(o) == prev = NoObs \/ o.canon = prev
 \* the canonical part of the node right after the switch: exactly block N
 SwitchedTo(o) == /\ o.canon.head = N /\ o.canon.durHead = N /\ o.canon.stateVer = N /\ o.canon.idVer = N
@@ -76,22 +80,23 @@ Resync(s, o) ==
 Differs(s, o) == o.canon.head = 0 /\ (o.prelim # s.ph \/ DefHeights(s) # o.deferred \/ (o.applier /\ (s.idv \ {0}) # ToSet(o.pIdVers)))
 
 ------------------------------------------------------------------------------------------------
-TraceInit == /\ l = 1 /\ ch = <<>> /\ N = 0 /\ st = InitState({}) /\ refb = <<>> /\ prev = NoObs /\ bad = {} /\ drift = 0
+TraceInit == /\ l = 1 /\ ch = <<>> /\ N = 0 /\ st = InitState({}) /\ refb = <<>> /\ prev = NoObs /\ bad = {} /\ drift = 0 /\ lied = FALSE
 
 TChain == /\ l <= Len(Trace) /\ Trace[l].ev = "Chain" /\ l' = l + 1
           /\ LET e == Trace[l] IN
              /\ ch' = [i \in 1..Len(e.blocks) |-> [kind |-> e.blocks[i].kind, need |-> e.blocks[i].need, diff |-> e.blocks[i].diff, cert |-> e.blocks[i].cert]]
              /\ N' = e.N /\ refb' = e.blocks
              /\ st' = InitState(ToSet(e.peers))
-          /\ prev' = NoObs /\ bad' = {} /\ UNCHANGED drift
+          /\ prev' = NoObs /\ bad' = {} /\ lied' = FALSE /\ UNCHANGED drift
 
 TNew == /\ l <= Len(Trace) /\ Trace[l].ev = "New" /\ l' = l + 1
         /\ LET e == Trace[l]
                o == e.obs
                p == IF e.res = "ok" THEN PreConsume(st, e.man) ELSE [st EXCEPT !.pc = "idle"]
-               b == If(~CanonSame(o), "NoPartialSwitch") \cup If(~ArtsOk(o), "BadPeerRefused")
+               b == If(~CanonSame(o), "NoPartialSwitch") \cup If(~ArtsOk(o), ArtClause)
            IN /\ st' = Resync(p, o) /\ prev' = o.canon
               /\ Note(b, Differs(p, o) \/ (e.res = "ok" /\ e.from # p.cur))
+              /\ lied' = (lied \/ e.man \notin {"ok", ""})
         /\ UNCHANGED <<ch, N, refb>>
 
 TServe == /\ l <= Len(Trace) /\ Trace[l].ev = "Serve" /\ l' = l + 1
@@ -101,6 +106,7 @@ TServe == /\ l <= Len(Trace) /\ Trace[l].ev = "Serve" /\ l' = l + 1
                  s0 == IF st.pc = "reload" THEN st ELSE [st EXCEPT !.att = 0, !.reg = @ \cup {e.peer}]
              IN /\ st' = Settle(Attempt(s0, e.peer, e.from, e.to, bs))
                 /\ Note({}, ~expected)
+                /\ lied' = (lied \/ \E i \in 1..Len(e.blocks) : e.blocks[i].f # "none")
           /\ UNCHANGED <<ch, N, refb, prev>>
 
 TBatchEnd == /\ l <= Len(Trace) /\ Trace[l].ev = "BatchEnd" /\ l' = l + 1
@@ -108,7 +114,7 @@ TBatchEnd == /\ l <= Len(Trace) /\ Trace[l].ev = "BatchEnd" /\ l' = l + 1
                     o == e.obs
                     predOk == st.pc = "ready"
                     b == If(~CanonSame(o), "NoPartialSwitch")
-                         \cup If(~ArtsOk(o), "BadPeerRefused")                                    \* something non-canonical was accepted
+                         \cup If(~ArtsOk(o), ArtClause)                                    \* something non-canonical was accepted
                          \cup If(~(st.blamed \subseteq Blamed(o)), "BadPeerRefused")                \* the culprit was not set aside
                          \cup If(st.pc = "reload" /\ e.res = "ok", "BadPeerRefused")                \* a refusal was due, the batch went through
                          \cup If(predOk /\ e.res # "ok", "HonestPeerAccepted")                    \* nothing altered was looked at, yet the batch failed
@@ -117,7 +123,7 @@ TBatchEnd == /\ l <= Len(Trace) /\ Trace[l].ev = "BatchEnd" /\ l' = l + 1
                 IN /\ st' = Resync(p, o)
                    /\ prev' = o.canon
                    /\ Note(b, Differs(st, o) \/ (st.pc = "reload"))
-             /\ UNCHANGED <<ch, N, refb>>
+             /\ UNCHANGED <<ch, N, refb, lied>>
 
 TPost == /\ l <= Len(Trace) /\ Trace[l].ev = "Post" /\ l' = l + 1
          /\ LET e == Trace[l]
@@ -131,7 +137,7 @@ TPost == /\ l <= Len(Trace) /\ Trace[l].ev = "Post" /\ l' = l + 1
                      THEN If(~SwitchedTo(o) \/ st.ph # N, "NoPartialSwitch")               \* switched, but not to exactly block N
                           \cup If(~durable, "NoPartialSwitch")                            \* a restarted node does not see the same
                           \cup If(p.pc # "switched" /\ st.ph = N, "BadPeerRefused")          \* switched although the snapshot is not the state at N
-                          \cup If(~ArtsOk(o), "BadPeerRefused")
+                          \cup If(~ArtsOk(o), ArtClause)
                      ELSE If(~CanonSame(o), "NoPartialSwitch")
                           \cup If(e.leftover # 0, "NoPartialSwitch")                      \* the refused import left state behind
                           \cup If(~durable, "NoPartialSwitch")
@@ -139,21 +145,21 @@ TPost == /\ l <= Len(Trace) /\ Trace[l].ev = "Post" /\ l' = l + 1
             IN /\ st' = IF e.res = "ok" THEN [Resync(p, o) EXCEPT !.pc = "switched", !.head = N, !.ph = -1] ELSE Resync([p EXCEPT !.pc = "idle"], o)
                /\ prev' = o.canon
                /\ Note(b, (e.res = "ok") # (p.pc = "switched") \/ (e.res # "ok" /\ ((p.out = "badsnapshot" /\ ~e.invalid) \/ (e.man = "ok" /\ e.invalid))))
-         /\ UNCHANGED <<ch, N, refb>>
+         /\ UNCHANGED <<ch, N, refb, lied>>
 
 TRestart == /\ l <= Len(Trace) /\ Trace[l].ev = "Restart" /\ l' = l + 1
             /\ LET o == Trace[l].obs
                    p == Reboot(st, ToSet(o.registered))
-                   b == If(~CanonSame(o), "NoPartialSwitch") \cup If(~ArtsOk(o), "BadPeerRefused") IN
+                   b == If(~CanonSame(o), "NoPartialSwitch") \cup If(~ArtsOk(o), ArtClause) IN
                /\ st' = Resync(p, o) /\ prev' = o.canon
                /\ Note(b, Differs(p, o))
-            /\ UNCHANGED <<ch, N, refb>>
+            /\ UNCHANGED <<ch, N, refb, lied>>
 
 TTail == /\ l <= Len(Trace) /\ Trace[l].ev = "Tail" /\ l' = l + 1
          /\ LET e == Trace[l]
                 b == If(e.accepted # e.to - e.from + 1, "ArrivedTail") IN
             /\ Note(b, FALSE) /\ prev' = e.obs.canon
-         /\ UNCHANGED <<ch, N, st, refb>>
+         /\ UNCHANGED <<ch, N, st, refb, lied>>
 
 \* ArrivedEqualsApplied on the two summaries
 ArtsEq(a, b) == Len(a) = Len(b) /\ \A i \in 1..Len(a) : a[i].h = b[i].h /\ a[i].hash = b[i].hash /\ a[i].diffd = b[i].diffd
@@ -168,14 +174,30 @@ TFinal == /\ l <= Len(Trace) /\ Trace[l].ev = "Final" /\ l' = l + 1
                                              \/ s.stVers # r.stVers \/ s.replayBad # <<>> \/ s.ownTx # r.ownTx), "ArrivedArtifacts")
                       \cup If(e.switched /\ s.reboot # r.reboot, "ArrivedRestart")
              IN Note(b, FALSE)
-          /\ UNCHANGED <<ch, N, st, refb, prev>>
+          /\ UNCHANGED <<ch, N, st, refb, prev, lied>>
+
+\* whole-Downloader scenarios (nothing mirrored, nothing observable in between): the answers that were on the wire ...
+TWire == /\ l <= Len(Trace) /\ Trace[l].ev = "Wire" /\ l' = l + 1
+         /\ lied' = (lied \/ \E i \in 1..Len(Trace[l].blocks) : Trace[l].blocks[i].f # "none")
+         /\ UNCHANGED <<ch, N, st, refb, prev, bad, drift>>
+\* ... and the end state after Downloader.SyncBlockchain returned: synchronized up to the peers' height, holding canonical
+\* artifacts only, durably, nothing preliminary or half-imported left
+TSynced == /\ l <= Len(Trace) /\ Trace[l].ev = "Synced" /\ l' = l + 1
+           /\ LET e == Trace[l]
+                  o == e.obs
+                  b == If(e.res # "ok" \/ o.canon.head # e.top, "HonestPeerAccepted")
+                       \cup If(~ArtsOk(o), ArtClause)
+                       \cup If(~(e.reboot.ok /\ e.reboot.canon = o.canon) \/ e.leftover # 0 \/ o.prelim # -1 \/ o.durPrelim # -1
+                              \/ o.canon.liveRoot # o.canon.root \/ o.canon.liveIdRoot # o.canon.idRoot \/ o.canon.durHead # o.canon.head, "NoPartialSwitch")
+              IN Note(b, FALSE) /\ prev' = o.canon
+           /\ UNCHANGED <<ch, N, st, refb, lied>>
 
 \* the repository's code panicked while syncing
-TPanic == /\ l <= Len(Trace) /\ Trace[l].ev = "Panic" /\ l' = l + 1 /\ Note({"NoCrash"}, FALSE) /\ UNCHANGED <<ch, N, st, refb, prev>>
+TPanic == /\ l <= Len(Trace) /\ Trace[l].ev = "Panic" /\ l' = l + 1 /\ Note({"NoCrash"}, FALSE) /\ UNCHANGED <<ch, N, st, refb, prev, lied>>
 
-TSkip == /\ l <= Len(Trace) /\ Trace[l].ev = "Skip" /\ l' = l + 1 /\ UNCHANGED <<ch, N, st, refb, prev, bad, drift>>
+TSkip == /\ l <= Len(Trace) /\ Trace[l].ev = "Skip" /\ l' = l + 1 /\ UNCHANGED <<ch, N, st, refb, prev, bad, drift, lied>>
 
-TraceNext == TChain \/ TPanic \/ TNew \/ TServe \/ TBatchEnd \/ TPost \/ TRestart \/ TTail \/ TFinal \/ TSkip
+TraceNext == TChain \/ TPanic \/ TWire \/ TSynced \/ TNew \/ TServe \/ TBatchEnd \/ TPost \/ TRestart \/ TTail \/ TFinal \/ TSkip
 TraceSpec == TraceInit /\ [][TraceNext]_tvars
 
 TraceAccepted ==
